@@ -40,12 +40,13 @@ using namespace SimTK;
 
 // ---------------------------------------------------------------- fake processor count (ext == 2)
 static std::atomic<long> gFakeNproc{0};
+#if !defined(__SANITIZE_THREAD__)             // the sanitizer runtime calls sysconf before it is initialised: no interposer there
+extern "C" long __sysconf(int name);          // glibc's own entry point
 extern "C" long sysconf(int name) {
-    typedef long (*fn)(int);
-    static fn real = (fn)dlsym(RTLD_NEXT, "sysconf");
     if (name == _SC_NPROCESSORS_ONLN && gFakeNproc.load() > 0) return gFakeNproc.load();
-    return real(name);
+    return __sysconf(name);
 }
+#endif
 
 // ---------------------------------------------------------------- log
 struct Rec { int tid; const char* tag; int n; double v[8]; };
